@@ -519,7 +519,9 @@ C19_RULE = ('FlatSet sizes n=0..400, 511..4097 and seed-derived n < 2000 (thorou
             'correct hint (lower bound; upper bound for present keys) <= 8 calls; heterogeneous keys equivalent to 4 / 64 / all elements (transparent comparator) '
             'within the same bound and count() equal to the run length; SmallSet inline lookups and the position searches of erase(key)/insert/emplace '
             '<= 2N+2 for N in {1,2,4,8,16}, every fill, keys visited in ascending and descending order; SmallSet over FlatSet in its large state within the '
-            'logarithmic bound; '
+            'logarithmic bound; SmallSets of char / unsigned char / uint16_t / int / TR filled beyond N (N+1..N+45): whenever the elements still live inside the '
+            'object the 2N+2 bound applies, and insertion with a correct hint in the large state (insert(hint, T&&), insert(hint, const T&), emplace_hint; '
+            'std::set and FlatSet backing) costs <= 8 calls; '
             'the grid runs in a build with assertions and in a -DNDEBUG build; non-trivial = n >= 64 (FlatSet) or fill >= 2 (SmallSet); distinct = distinct (build, configuration, n); keys_probed counts the lookups')
 
 
